@@ -88,6 +88,10 @@ def check_selectors(prog, rep, qual='svd.matrix_svd', a='m', b='n',
     predicate)."""
     fn = prog.func(qual)
     mod = fn.module
+    from . import roles
+    sh = roles.shape_names(fn, 0)
+    if sh is not None and len(sh) == 2:
+        a, b = sh           # the two extents of the matrix argument
     vecs = []
     for node in ast.walk(fn.node):
         t = None
@@ -123,21 +127,38 @@ def check_rank_formula(prog, rep, qual, rule='F-rank'):
     """rank == max(1, min(int(r), len(s) - dlen)) on a bounded grid."""
     fn = prog.func(qual)
     mod = fn.module
+    # the rank assignment:  <name> = max(c, min(int(<cap>), len(<S>) - <D>)),
+    # identified by its shape (max / min / len) -- not by variable names
     target = None
     for node in ast.walk(fn.node):
         if isinstance(node, ast.Assign) and isinstance(node.value, ast.Call) \
                 and isinstance(node.value.func, ast.Name) and \
                 node.value.func.id == 'max' and \
                 isinstance(node.targets[0], ast.Name):
-            names = {x.id for x in ast.walk(node.value)
-                     if isinstance(x, ast.Name)}
-            if 'dlen' in names and 'r' in names:
+            calls = {x.func.id for x in ast.walk(node.value)
+                     if isinstance(x, ast.Call) and
+                     isinstance(x.func, ast.Name)}
+            if {'min', 'len'} <= calls:
                 target = node
     if target is None:
-        rep.violation(rule, qual, 'rank = max(1, min(int(r), len(s) - dlen))',
-                      'the rank selection expression was not found',
-                      line=fn.node.lineno, file=mod.path)
+        rep.unknown(rule, qual, 'rank = max(1, min(int(r), len(s) - dlen))',
+                    'the rank selection expression was not found',
+                    line=fn.node.lineno, file=mod.path)
         return
+    lens = {x.args[0].id for x in ast.walk(target.value)
+            if isinstance(x, ast.Call) and isinstance(x.func, ast.Name) and
+            x.func.id == 'len' and len(x.args) == 1 and
+            isinstance(x.args[0], ast.Name)}
+    free = {x.id for x in ast.walk(target.value) if isinstance(x, ast.Name)} \
+        - {'max', 'min', 'int', 'len'} - lens
+    caps = sorted(n for n in free if n in fn.all_params)
+    drops = sorted(n for n in free if n not in fn.all_params)
+    if len(caps) != 1 or len(drops) != 1:
+        rep.unknown(rule, qual, paths.src(mod, target),
+                    'cap / dropped-count operands not identified (%s / %s)'
+                    % (caps, drops))
+        return
+    cap_name, drop_name = caps[0], drops[0]
     bad = None
     n = 0
     for cap, ln, dl in itertools.product(range(1, 7), range(1, 7),
@@ -145,7 +166,9 @@ def check_rank_formula(prog, rep, qual, rule='F-rank'):
         if dl > ln:
             continue
         n += 1
-        env = {'r': cap, 'dlen': dl, 'len(s)': ln, 'len(w)': ln}
+        env = {cap_name: cap, drop_name: dl}
+        for l_ in lens:
+            env['len(%s)' % l_] = ln
         got = _eval_int(target.value, env)
         want = max(1, min(cap, ln - dl))
         if got is None:
@@ -155,52 +178,111 @@ def check_rank_formula(prog, rep, qual, rule='F-rank'):
         if got != want:
             bad = (cap, ln, dl, got, want)
             break
-    rep.add(rule, qual, paths.src(mod, target),
+    rep.add(rule, qual, 'rank = max(1, min(cap, len - dropped))',
             'ok' if bad is None else 'violation',
             'folded on %d (cap, len, dropped) triples' % n if bad is None else
             'for cap r=%d, %d singular values and %d droppable ones the '
             'expression gives rank %d, the tail-energy rule requires '
             'max(1, min(r, len - dropped)) = %d' % bad,
             line=target.lineno, file=mod.path)
-    # dlen: number of droppable values = 1 + last index of the cumulative
-    # tail energy that is <= e**2
-    ok_cmp = False
+    # dropped count = 1 + last index at which the cumulative tail energy
+    # (cumsum over the reversed vector) is <= e**2: non-strict, cumsum on the
+    # small side -- in either spelling of the comparison
+    st, detail = 'unknown', 'tail comparison not found'
+
+    def has_rev_cumsum(x):
+        for c in ast.walk(x):
+            if isinstance(c, ast.Call) and \
+                    (prog.dotted(c.func) or '').endswith('cumsum'):
+                for sl in ast.walk(c):
+                    if isinstance(sl, ast.Slice) and sl.lower is None and \
+                            sl.upper is None and sl.step is not None and \
+                            isinstance(sl.step, ast.UnaryOp) and \
+                            isinstance(sl.step.op, ast.USub):
+                        return True
+        return False
+
+    def is_e2(x):
+        return isinstance(x, ast.BinOp) and isinstance(x.op, ast.Pow) and \
+            isinstance(x.left, ast.Name) and x.left.id in fn.all_params and \
+            isinstance(x.right, ast.Constant) and x.right.value == 2
     for node in ast.walk(fn.node):
-        if isinstance(node, ast.Compare) and len(node.ops) == 1 and \
-                isinstance(node.ops[0], ast.LtE):
-            txt = paths.src(mod, node).replace(' ', '')
-            if 'cumsum' in txt and 'e**2' in txt and '[::-1]' in txt:
-                ok_cmp = True
+        if isinstance(node, ast.Compare) and len(node.ops) == 1:
+            l, r_ = node.left, node.comparators[0]
+            op = type(node.ops[0])
+            if has_rev_cumsum(l) and is_e2(r_):
+                good = op is ast.LtE
+            elif has_rev_cumsum(r_) and is_e2(l):
+                good = op is ast.GtE
+            else:
+                continue
+            st = 'ok' if good else 'violation'
+            detail = '' if good else (
+                'the droppable tail is no longer the longest tail whose '
+                'cumulative energy is <= e**2 (reversed cumulative sum, '
+                'non-strict comparison); found %s' % paths.src(mod, node))
     rep.add(rule + '-tail', qual, 'cumsum(tail energies) <= e**2',
-            'ok' if ok_cmp else 'violation',
-            '' if ok_cmp else 'the droppable tail is no longer the longest '
-            'tail whose cumulative energy is <= e**2 (reversed cumulative sum, '
-            'non-strict comparison)', line=fn.node.lineno, file=mod.path)
+            st, detail, line=fn.node.lineno, file=mod.path)
 
 
 def check_cheb_siblings(prog, rep):
     """(thorough) three-term recurrence  T_k = 2 x T_{k-1} - T_{k-2}  in the
-    three copies; Clenshaw-Curtis weights 2/(1-k^2) in both integrators."""
-    import re
+    three copies, decided as a polynomial identity over the atoms x, T_{k-1},
+    T_{k-2} (any spelling / operand order)."""
     for qual in ('func.func_basis', 'optima_func._cheb_my_poly',
                  'sample_func._cheb_my_poly'):
         fn = prog.func(qual)
         mod = fn.module
-        ok = False
-        for node in ast.walk(fn.node):
-            if isinstance(node, ast.For):
-                for st in node.body:
-                    if isinstance(st, ast.Assign) and \
-                            isinstance(st.value, ast.BinOp) and \
-                            isinstance(st.value.op, ast.Sub):
-                        txt = paths.src(mod, st.value).replace(' ', '')
-                        if re.match(r'^2\.?\*X\*\w+\[(:,)?\w+-1\]-\w+\[(:,)?'
-                                    r'\w+-2\]$', txt):
-                            ok = True
+        st_, detail = 'unknown', 'recurrence statement not found'
+        for loop in ast.walk(fn.node):
+            if not (isinstance(loop, ast.For) and
+                    isinstance(loop.target, ast.Name)):
+                continue
+            kv = loop.target.id
+            for st in loop.body:
+                if not (isinstance(st, ast.Assign) and
+                        isinstance(st.targets[0], ast.Subscript) and
+                        isinstance(st.targets[0].value, ast.Name)):
+                    continue
+                base = st.targets[0].value.id
+
+                def lag(node):
+                    """T[.., k - j, ..] of the same array -> j."""
+                    if not (isinstance(node, ast.Subscript) and
+                            isinstance(node.value, ast.Name) and
+                            node.value.id == base):
+                        return None
+                    for x in ast.walk(node.slice):
+                        if isinstance(x, ast.BinOp) and \
+                                isinstance(x.op, ast.Sub) and \
+                                isinstance(x.left, ast.Name) and \
+                                x.left.id == kv and \
+                                isinstance(x.right, ast.Constant):
+                            return x.right.value
+                    return None
+
+                class Sub(ast.NodeTransformer):
+                    def visit_Subscript(self, n):
+                        j = lag(n)
+                        if j is not None:
+                            return ast.Name(id='T_%d' % j, ctx=ast.Load())
+                        return n
+                import copy
+                try:
+                    val = rat_eval(Sub().visit(copy.deepcopy(st.value)), {})
+                except ValueError:
+                    continue
+                xname = fn.params[0]
+                want = Rat(Poly.const(2) * Poly.sym(xname) * Poly.sym('T_1')
+                           - Poly.sym('T_2'))
+                if not any(a_ in ('T_1', 'T_2') for a_ in val.n.atoms()):
+                    continue
+                good = val.eq(want)
+                st_ = 'ok' if good else 'violation'
+                detail = '' if good else 'the Chebyshev three-term ' \
+                    'recurrence changed: %r' % (val.reduced(),)
         rep.add('F-recurrence', qual, 'T[k] = 2 X T[k-1] - T[k-2]',
-                'ok' if ok else 'violation',
-                '' if ok else 'the Chebyshev three-term recurrence changed',
-                line=fn.node.lineno, file=mod.path)
+                st_, detail, line=fn.node.lineno, file=mod.path)
 
 
 # ---------------------------------------------------------------------------
@@ -299,39 +381,51 @@ def rat_eval(node, env):
     raise ValueError(type(node).__name__)
 
 
-def branch_assign(fn_node, kind, target):
-    """The expression assigned to ``target`` in the branch  kind == <kind>."""
+def returned_name(fn_node):
+    names = [n.value.id for n in ast.walk(fn_node)
+             if isinstance(n, ast.Return) and isinstance(n.value, ast.Name)]
+    return max(set(names), key=names.count) if names else None
+
+
+def branch_assign(fn_node, kind, target=None, selector='kind'):
+    """The formula assigned to the result variable on the paths where
+    ``<selector> == <kind>`` holds (any spelling / arm order of the test).
+    ``target`` defaults to the name the function returns."""
+    from . import paths as _paths
+    target = target or returned_name(fn_node)
     for node in ast.walk(fn_node):
-        if isinstance(node, ast.If) and isinstance(node.test, ast.Compare) and \
-                isinstance(node.test.left, ast.Name) and \
-                node.test.left.id == 'kind' and \
-                isinstance(node.test.comparators[0], ast.Constant) and \
-                node.test.comparators[0].value == kind:
-            for st in node.body:
-                if isinstance(st, ast.Assign) and \
-                        isinstance(st.targets[0], ast.Name) and \
-                        st.targets[0].id == target:
-                    return st.value
+        if isinstance(node, ast.Assign) and \
+                isinstance(node.targets[0], ast.Name) and \
+                node.targets[0].id == target and \
+                isinstance(node.value, ast.BinOp):
+            gs = _paths.guards_of(fn_node, node)
+            if _paths.holds(gs, ast.Name(id=selector, ctx=ast.Load()),
+                            ast.Eq, ast.Constant(value=kind)):
+                return node.value
     return None
 
 
 def check_grid_inverse(prog, rep):
     """poi_to_ind (before rounding) o ind_to_poi == identity, endpoints."""
+    from . import roles
     f_i2p = prog.func('grid.ind_to_poi')
     f_scale = prog.func('grid.poi_scale')
     f_p2i = prog.func('grid.poi_to_ind')
+    in_i2p = f_i2p.params[0]                  # indices
+    in_scale = f_scale.params[0]              # points
+    in_p2i = roles.unpacked_from_call(prog, f_p2i, 'poi_scale', 0)
     for kind in ('uni', 'cheb'):
-        ex_x = branch_assign(f_i2p.node, kind, 'X')
-        ex_s = branch_assign(f_scale.node, kind, 'Xsc')
-        ex_i = branch_assign(f_p2i.node, kind, 'I')
+        ex_x = branch_assign(f_i2p.node, kind)
+        ex_s = branch_assign(f_scale.node, kind)
+        ex_i = branch_assign(f_p2i.node, kind)
         where = 'grid.ind_to_poi/poi_scale/poi_to_ind'
         if ex_x is None or ex_s is None or ex_i is None:
             rep.error('grid maps: branch kind=%r not found' % kind)
             continue
         try:
-            X = rat_eval(ex_x, {})
-            Xsc = rat_eval(ex_s, {'X': X})
-            I2 = rat_eval(ex_i, {'Xsc': Xsc})
+            X = rat_eval(ex_x, {in_i2p: Rat(Poly.sym('I'))})
+            Xsc = rat_eval(ex_s, {in_scale: X})
+            I2 = rat_eval(ex_i, {in_p2i: Xsc})
         except ValueError as e:
             rep.unknown('F-inverse', where, 'kind=%s' % kind,
                         'expression not in the supported fragment: %s' % e)
@@ -345,8 +439,8 @@ def check_grid_inverse(prog, rep):
                 % (I2.reduced(),), line=ex_i.lineno, file=f_p2i.module.path)
         # endpoints
         a, b = Rat(Poly.sym('a')), Rat(Poly.sym('b'))
-        lo = rat_eval(ex_x, {'I': Rat(0)})
-        hi = rat_eval(ex_x, {'I': Rat(Poly.sym('n') - 1)})
+        lo = rat_eval(ex_x, {in_i2p: Rat(0)})
+        hi = rat_eval(ex_x, {in_i2p: Rat(Poly.sym('n') - 1)})
         want_lo, want_hi = (a, b) if kind == 'uni' else (b, a)
         ok = lo.eq(want_lo) and hi.eq(want_hi)
         rep.add('F-endpoint', 'grid.ind_to_poi', 'index 0 / n-1 map to the '
@@ -355,8 +449,8 @@ def check_grid_inverse(prog, rep):
                 % (lo.reduced(), hi.reduced()), line=ex_x.lineno,
                 file=f_i2p.module.path)
         # scaling maps the box ends to the canonical ends
-        s_lo = rat_eval(ex_s, {'X': a})
-        s_hi = rat_eval(ex_s, {'X': b})
+        s_lo = rat_eval(ex_s, {in_scale: a})
+        s_hi = rat_eval(ex_s, {in_scale: b})
         w = (Rat(0), Rat(1)) if kind == 'uni' else (Rat(-1), Rat(1))
         ok = s_lo.eq(w[0]) and s_hi.eq(w[1])
         rep.add('F-endpoint', 'grid.poi_scale', 'a / b are scaled to the '
